@@ -33,7 +33,7 @@ OBLIGATIONS = ["NiftyVerif.C30." + t for t in (
     "interp_monotone", "interp_strictMono", "interp_nodes", "interp_between", "interp_range",
     "invgamma_monotone_and_step_error", "inverse_roundtrip_interp", "inverse_roundtrip_invgamma",
     "interpolator_grid_covers", "invgamma_exact_at_nodes", "strictMono_tabulated_cl", "quantile_tabulated_cl",
-    "invgamma_cl_jacobian")]
+    "invgamma_cl_jacobian", "pushforward_cdf")]
 RULE = ("case = (family, parameters, implementations, sorted standard-normal points x = Phi^-1(p) with p in [1e-12, 1-1e-12], "
         "log-uniform in min(p,1-p), both tails); parameters log-uniform over the documented ranges; non-trivial = points in "
         "both tails and non-default parameters; distinct by canonical JSON of the case. Separate streams: exact dyadic tables "
@@ -154,7 +154,12 @@ def gen_case(rng, fam, npts, k=None):
         impls = ["cl.op"]
     else:
         raise KeyError(fam)
-    return dict(op="transform", fam=fam, par=par, impls=impls, x=gen_points(rng, npts))
+    x = gen_points(rng, npts)
+    if fam in TABLE_FAMS:          # two points exactly on table nodes: no interpolation error allowed there
+        grid = np.arange(I.TABLE_XMIN, I.TABLE_XMAX, par["step"])
+        grid = grid[np.abs(grid) < 7.0]
+        x = sorted(set(x) | {float(grid[rng.randrange(len(grid))]) for _ in range(2)})
+    return dict(op="transform", fam=fam, par=par, impls=impls, x=x)
 
 
 # ------------------------------------------------------------------------------------------------
@@ -213,6 +218,7 @@ def tolerances(fam, impl, par, x):
     else:
         h = par.get("step", 0.01)
         E2, _ = I.interp_bounds(fam, par, x, h)
+        E2 = np.where(np.isin(x, np.arange(I.TABLE_XMIN, I.TABLE_XMAX + h, h)), 0.0, E2)    # exact at the nodes
         cond = np.maximum(I.ref_cond(d, x), I.ref_cond(d, np.sign(x) * (np.abs(x) + h)))
         if fam == "invgamma":
             tol = SLACK * np.expm1(E2) * np.abs(r) + 8 * cond + RTOL * np.abs(r)
@@ -327,6 +333,10 @@ def judge(case, ev):
                     (al > 1 and abs(q / (al - 1) - par["mean"]) > 1e-9 * par["mean"]) or al <= 1:
                 return (f"invgamma/cl.modemean {par}: alpha={al}, q={q} do not have mode q/(alpha+1) and mean q/(alpha-1)",
                         sig(impl, "params"))
+        if fam in ("invgamma", "gamma") and impl in ("cl.op", "cl.modemean", "cl.beta", "cl.meanvar"):
+            bad = _check_props(fam, par, res)
+            if bad:
+                return (f"{fam}/{impl} {par}: documented property {bad}", sig(impl, "params"))
         if impl == "cl.meanvar":
             al, th = res.get("prop_alpha"), res.get("prop_theta")
             if al is None or th is None or abs(al * th - par["mean"]) > 1e-9 * par["mean"] or \
@@ -356,6 +366,30 @@ def judge(case, ev):
 
 
 I_TABLE = TABLE_FAMS
+
+
+def _check_props(fam, par, res):
+    """the documented read-only properties of InverseGammaOperator / GammaOperator against the textbook moments"""
+    d = I.ref_dist(fam, par)
+    a, sc = par["a"], par["scale"]
+    near = lambda u, v: u is not None and abs(u - v) <= 1e-9 * abs(v)
+    if fam == "invgamma":
+        want = dict(alpha=a, q=sc, mode=sc / (a + 1))
+        if a > 1.001:
+            want["mean"] = float(d.mean())
+        if a > 2.001:
+            want["var"] = float(d.var())
+    else:
+        want = dict(alpha=a, theta=sc, mean=float(d.mean()), var=float(d.var()))
+        if a >= 1.0:
+            want["mode"] = (a - 1) * sc
+    for k, v in want.items():
+        tol_ok = near(res.get("prop_" + k), v) if not (k == "mode" and v == 0) else True
+        if k in ("alpha", "q", "theta", "mean", "var", "mode") and fam == "invgamma" and "mode" in par and k in ("alpha", "q"):
+            tol_ok = res.get("prop_" + k) is not None and abs(res["prop_" + k] - v) <= 1e-7 * abs(v)   # derived via a division
+        if not tol_ok:
+            return f"{k} = {res.get('prop_' + k)!r}, textbook value {v!r}"
+    return None
 
 
 def oracle_moments(case):
